@@ -91,7 +91,7 @@ var c02Lexeme = map[string]string{
 	"le": "<=", "assign": "=", "decl": ":=", "and": "&&", "or": "||", "amp": "&", "not": "!", "pipe": "|", "comma": ",", "semi": ";",
 	"colon": ":", "question": "?", "lparen": "(", "rparen": ")", "lbrack": "[", "rbrack": "]", "space": " ", "newline": "\n", "kwif": "if",
 	"kwend": "end", "kwnil": "nil", "kwrange": "range", "kwcontent": "content", "symbol": "€", "control": "\x01", "badutf8": "\xff\xfe",
-	"nbsp": " ", "true": "true", "ampfield": "1&.F", "mbdigit": "٣", "mbspace": "\u2003",
+	"nbsp": " ", "true": "true", "ampfield": "1&.F", "bigint": "18446744073709551616", "bigexp": "1e999", "multichar": "'ab'", "mbdigit": "٣", "mbspace": "\u2003",
 }
 
 func c02LexSource(ctx string, lexs []string, glue bool, c c03Cfg) string {
